@@ -48,7 +48,15 @@ def catalogue(cfg, iso, sh, rng):
         yield 'rm_hard_link', 'is-a-directory', EARLY, lambda: iso.rm_hard_link(iso_path=d)
         ne = [x for x in dirs['iso'] if any(q.startswith(x + '/') for q in files['iso'] + dirs['iso'])]
         if ne:
-            yield 'rm_directory', 'not-empty', EARLY, lambda: iso.rm_directory(iso_path=ne[0])
+            yield 'rm_directory', 'not-empty', EARLY, (lambda p=ne[0]: iso.rm_directory(iso_path=p))
+    for ns, kw in (('jol', 'joliet_path'), ('udf', 'udf_path')):
+        if (ns == 'jol' and not cfg.joliet) or (ns == 'udf' and not cfg.udf):
+            continue
+        if files[ns]:
+            yield 'rm_directory', 'is-a-file:' + ns, EARLY, (lambda kw=kw, p=files[ns][0]: iso.rm_directory(**{kw: p}))
+        ne = [x for x in dirs[ns] if any(q.startswith(x + '/') for q in files[ns] + dirs[ns])]
+        if ne:
+            yield 'rm_directory', 'not-empty:' + ns, EARLY, (lambda kw=kw, p=ne[0]: iso.rm_directory(**{kw: p}))
     # --- multi-namespace calls: the ISO9660 part is valid and applied before the later part is looked at
     if cfg.joliet:
         yield 'add_fp', 'missing-parent:joliet', LATE, lambda: iso.add_fp(fp(), 5, iso_path='/NEWJ.;1', joliet_path='/nodir/newj', **rr)
